@@ -129,7 +129,7 @@ def level_of(tier, mol, ans, mapping):
         return "A" if mol == "BARE" else "C"
     nq = 2 if mol == "BARE" else MOLS[mol]["nq"]
     if nq <= 4:
-        return "A"
+        return "A-" if mol == "H4f" else "A"      # H4f repeats the H2 structure; what it adds is the frozen-orbital bookkeeping
     if unit_cost(mol, ans, "JW") >= 0.2:
         return "B"
     return "A-"
@@ -783,9 +783,10 @@ class Run:
                     acc.nt(("D", cfg, v, tname, defl))
                 acc.count("deflation_evaluations")
                 if not abs(inc - exp_inc) <= TOL_E:
-                    self.bad("energy_estimation(deflation)", "increment-mismatch", f"{defl[0]},coeff={defl[1]},{sigkey(cfg, v)}",
+                    self.bad("energy_estimation(deflation)", "increment-mismatch",
+                             f"{defl[0]},coeff={defl[1]},{cfg[1]},{cfg[2]},ref={v['ref']},theta={tname}",
                              dcase, {"solver_increment": inc, "reference_increment": exp_inc, "overlaps": ovs, "coeff": defl[1],
-                                     "plain_energy": e0, "repro": self.repro(v, st["seq"], "E", defl)})
+                                     "plain_energy": e0, "ansatz_circuit_width": solver.ansatz.circuit.width, "register": n, "repro": self.repro(v, st["seq"], "E", defl)})
             # ---- operator expectations ---------------------------------------------------------------------------------
             for op in OPS:
                 if only_ops is not None and op not in only_ops:
